@@ -527,16 +527,53 @@ func cfgOf(r *rand.Rand) []uint64 {
 	return []uint64{0, uint64(l), ninit}
 }
 
+// corpusMotifs: the corpus histories, used as PREFIXES of a share of the random histories (a random cut of a random
+// corpus history is replayed first, then generation continues at random from the situation it reached): the corner
+// cases that were worth writing down are then also explored in their neighbourhood, not only replayed verbatim.
+var corpusMotifs []hist.H
+
 func runRandom(t *testing.T, w *hist.W, h int) {
 	r := hist.Rng(h)
 	synctest.Test(t, func(t *testing.T) {
 		cfg := cfgOf(r)
+		var prefix [][]uint64
+		if len(corpusMotifs) > 0 && r.IntN(6) == 0 {
+			m := corpusMotifs[r.IntN(len(corpusMotifs))]
+			if len(m.Cfg) >= 3 && len(m.Evs) > 0 {
+				cfg = append([]uint64{}, m.Cfg...)
+				prefix = m.Evs[:1+r.IntN(len(m.Evs))]
+			}
+		}
 		w.Begin(fmt.Sprintf("r%d", h), cfg)
 		s := newSys(w, cfg)
 		defer s.teardown()
+		for _, ev := range prefix {
+			if len(ev) == 0 {
+				break
+			}
+			ev = append([]uint64{}, ev...)
+			obs, ok := s.exec(ev)
+			if !ok {
+				break
+			}
+			s.count(ev, obs)
+			w.Step(ev, obs)
+		}
+		if prefix != nil {
+			w.Count("random_with_corpus_prefix", 1)
+		}
 		steps := 10 + r.IntN(60)
 		maxActs := 3 + r.IntN(8)
 		maxJobs := 3 + r.IntN(12)
+		if prefix != nil {
+			maxActs += len(s.api)
+			maxJobs += len(s.jobs)
+			for _, a := range s.api {
+				if a.Kind == kEnq && !a.Done() {
+					maxJobs += len(a.Data.(*adata).batch) // enqueued by the section this call has not run yet
+				}
+			}
+		}
 		for k := 0; k < steps; k++ {
 			ev := s.gen(r, maxActs, maxJobs)
 			if ev == nil {
@@ -594,7 +631,8 @@ func TestConc(t *testing.T) {
 		}
 		return
 	}
-	for _, h := range hist.LoadCorpus(*hist.Corpus) {
+	corpusMotifs = hist.LoadCorpus(*hist.Corpus)
+	for _, h := range corpusMotifs {
 		runFixed(t, w, h.ID, h.Cfg, h.Evs)
 		w.Count("corpus", 1)
 	}
